@@ -10,6 +10,8 @@ pub enum Call {
     NextU32,
     NextU64,
     TryFill(usize),
+    /// a `try_fill_bytes` call the scripted entropy source refused (no draw consumed)
+    TryFillErr(usize),
 }
 
 pub struct ScriptedRng {
@@ -18,11 +20,15 @@ pub struct ScriptedRng {
     pub calls: Vec<Call>,
     /// what to produce when the script is exhausted
     pub fallback: Fe,
+    /// entropy outages: `(draw position, n)` = the next n `try_fill_bytes` calls made
+    /// while `pos` is at that position return an error; `fill_bytes` (the blocking
+    /// interface) always succeeds
+    pub faults: Vec<(usize, usize)>,
 }
 
 impl ScriptedRng {
     pub fn new(draws: Vec<Fe>) -> Self {
-        ScriptedRng { draws, pos: 0, calls: vec![], fallback: crate::fe::fe(0xdead_beef) }
+        ScriptedRng { draws, pos: 0, calls: vec![], fallback: crate::fe::fe(0xdead_beef), faults: vec![] }
     }
     /// 14 distinct non-zero draws derived from a seed.
     pub fn base(seed: u64, stream: u64) -> Self {
@@ -52,6 +58,12 @@ impl RngCore for ScriptedRng {
         dest[..n].copy_from_slice(&bytes[..n]);
     }
     fn try_fill_bytes(&mut self, dest: &mut [u8]) -> Result<(), rand_core::Error> {
+        let pos = self.pos;
+        if let Some(f) = self.faults.iter_mut().find(|(p, n)| *p == pos && *n > 0) {
+            f.1 -= 1;
+            self.calls.push(Call::TryFillErr(dest.len()));
+            return Err(rand_core::Error::from(core::num::NonZeroU32::new(rand_core::Error::CUSTOM_START + 7).unwrap()));
+        }
         self.calls.push(Call::TryFill(dest.len()));
         self.fill_bytes(dest);
         self.calls.pop();
